@@ -12,16 +12,19 @@ from .consts import (
     SH,
     OWL_Class,
     OWL_DatatypeProperty,
+    RDF_first,
     RDF_Property,
     RDF_type,
     RDFS_Class,
     RDFS_subClassOf,
+    SH_condition,
     SH_ConstraintComponent,
     SH_node,
     SH_NodeShape,
     SH_path,
     SH_property,
     SH_PropertyShape,
+    SH_rule,
     SH_targetClass,
     SH_targetNode,
     SH_targetObjectsOf,
@@ -426,6 +429,17 @@ class ShapesGraph(object):
                                         _found_child_bnodes.append(item)
                             elif isinstance(p_e, (rdflib.BNode, rdflib.URIRef)):
                                 _found_child_bnodes.append(p_e)
+                # The condition shapes of the shape's rules (SHACL-AF sh:rule / sh:condition, a shape or a
+                # list of shapes) are needed to apply those rules.
+                for rule_node in g.objects(s, SH_rule):
+                    for cond in g.objects(rule_node, SH_condition):
+                        if (cond, RDF_first, None) in g:
+                            cond_shapes = list(g.items(cond))
+                        else:
+                            cond_shapes = [cond]
+                        for c_s in cond_shapes:
+                            if isinstance(c_s, (rdflib.BNode, rdflib.URIRef)):
+                                _found_child_bnodes.append(c_s)
                 if len(_found_child_bnodes) > 0:
                     _gather_shapes(_found_child_bnodes, recurse_depth=recurse_depth + 1)
 
